@@ -432,7 +432,8 @@ func c15concrete(secs []c15Sec, rng *rand.Rand) []c15Sec {
 	return out
 }
 
-var c15ignoreSets = [][]int{{1}, {1, 5}, {1, 5, 6}, {0, 1, 5, 6}, {3, 4}, {1, 3, 4, 5, 6}}
+// ("every ignore-set": also sets that name the flush kind itself - a block is the group delimiter whatever the set says)
+var c15ignoreSets = [][]int{{1}, {1, 5}, {1, 5, 6}, {0, 1, 5, 6}, {3, 4}, {1, 3, 4, 5, 6}, {1, 2}, {2, 5, 6}}
 
 func TestVerifC15(t *testing.T) {
 	cases := vt.Cases(t)
